@@ -46,6 +46,13 @@ Further batches (each with required branch counters):
     (masked amplitudes, `_merge_sv` threshold; tight), against the exact masked model at threshold 0, and against the
     specification within the distance given by the proved error distribution;
   * early-exit batch: heralds a detector cannot report (`check_heralds_detectors`).
+  * multi-photon-number batch: mixtures in which a member superposes Fock states with DIFFERENT photon numbers (vacuum,
+    numbers below / at / above what heralds and filter require), through `Simulator.probs_svd` and
+    `Processor.with_input(StateVector | SVDistribution).probs()`, with heralds, post-selection, total filter not above
+    the smallest sector / between the sectors / above all, keep_heralds both ways, no / PNR / non-PNR detectors:
+    `_preprocess_svd`'s photon-count split in front of the generic path, against the specification (conditioning of
+    `probsSVD` of the un-split members), the model `PM.C04.probsSvdGenS` (theorem `condition_spec_superposed_split`)
+    and the generic model on the mixture of the sectors; the direct oracle splits the sectors by hand.
 The real code runs in a separate worker process: a native crash (or a hang) of the code under test on a legal
 input is reported as a violation with the configuration that triggers it instead of killing the harness.
 """
@@ -2507,7 +2514,9 @@ def run(chk: core.Check):
                 "objects that already answered another request; fast-path, non-PNR-detector and superposed configurations at "
                 "the default and at explicit non-zero precisions (trimming models and proved bounds, a-priori bound from "
                 "sizes); heralds a detector cannot report (early exit); sessions of 2-4 queries on one Simulator / "
-                "Processor with selection changes in between (state-machine model); "
+                "Processor with selection changes in between (state-machine model); mixtures whose members superpose "
+                "different photon numbers through Simulator.probs_svd and Processor.with_input(StateVector) with every "
+                "kind of selection and detector layout (photon-count split); "
                 "distinct = distinct (entry point, engine, m, heralds with values in declaration order, filter, "
                 "post-selection, keep_heralds, input shape, detector layout, reused or not) signatures; "
                 "non-trivial = at least one heralded mode (the mask path is active)")
@@ -2530,7 +2539,11 @@ def run(chk: core.Check):
         "input mixtures of Processor.probs() are taken from Processor.source_distribution (the source model is C06)",
         "detector kernels (threshold: min(k,1); interleaved pseudo-PNR: closed form C(w,j)*surj(k,j)/w^k capped at "
         "max_detections) are data of the specification here — Detector.detect itself is C08's subject; detectors are "
-        "not combined with superposed input states",
+        "combined with superposed input states in the multi-photon-number batch only",
+        "multi-photon-number batch: at most one photon per mode and tag in every term (the coefficient is the rescaled "
+        "coefficient of the specification), integer Gaussian coefficients, precision 0; the direct oracle treats a "
+        "member holding several photon numbers as the mixture of its photon-number sectors weighted by their squared "
+        "norms (components of different photon number never interfere)",
         "a herald whose expected value exceeds what the detector on its mode can report (check_heralds_detectors' "
         "early exit: empty results, physical_perf 1, outside the property's quantifier) is generated by the early-exit "
         "batch only and compared with the model of the exit",
